@@ -78,6 +78,11 @@ inductive Val where
 
 abbrev Member := String × Bool × Ty
 
+/-- is the Unit type -/
+def Ty.isUnit : Ty → Bool
+  | .unit => true
+  | _ => false
+
 /-- `t == anyTypeDefault` -/
 def Ty.isAny : Ty → Bool
   | .any => true
